@@ -246,6 +246,10 @@ func c20Defaults(c *Ctx, p *Program, docs []optDoc) {
 			if fn.Pkg == nil || fn.Pkg != p.SSAPkg("") {
 				continue
 			}
+			// a function that returns nothing but an error validates; it does not turn options into settings
+			if rs := fn.Signature.Results(); rs.Len() == 1 && isErrorType(rs.At(0).Type()) && fn.Object() != nil && !fn.Object().Exported() {
+				continue
+			}
 			c.Func(FnName(fn))
 			for _, u := range *ld.Referrers() {
 				site := ""
